@@ -1,2 +1,18 @@
+import P2P.Text
+import P2P.Model.Pqr
 import P2P.Props.C08
-#print axioms P2P.Props.C08.placeholder
+#print axioms P2P.Props.C08.roundtrip_fixed
+#print axioms P2P.Props.C08.roundtrip_ws
+#print axioms P2P.Props.C08.line_length
+#print axioms P2P.Props.C08.serial_trunc_witness
+#print axioms P2P.Props.C08.resseq_trunc_witness
+#print axioms P2P.Props.C08.resseq_neg_trunc_witness
+#print axioms P2P.Props.C08.coord_trunc_witness
+#print axioms P2P.Props.C08.coord_neg_trunc_witness
+#print axioms P2P.Props.C08.charge_trunc_witness
+#print axioms P2P.Props.C08.radius_trunc_witness
+#print axioms P2P.Props.C08.ws_chain_merge_witness
+#print axioms P2P.Props.C08.ws_icode_witness
+#print axioms P2P.Props.C08.ws_charge_merge_witness
+#print axioms P2P.Props.C08.ws_radius_merge_witness
+#print axioms P2P.Props.C08.ws_numeric_chain_witness
